@@ -49,7 +49,7 @@ def machine_spec(
     sends=False,
     send_unknown=True,
     attach=("conv", "name", "func", "deco"),
-    guard_kinds=("method", "property", "attr"),
+    guard_kinds=("method", "property", "attr", "func"),
     max_extra=8,
     rets=RET_POOL,
     multi_provider=True,
@@ -169,8 +169,12 @@ def machine_spec(
         # a name used in `unless` gets one provider: what "falsy on several providers" means is not documented
         if multi_provider and len(ctor_provs) > 1 and name not in in_unless and draw(st.integers(0, 9)) < 3:
             provs = ctor_provs[:2]
+        if "func" in guard_kinds and len(provs) == 1 and draw(st.integers(0, 5)) == 0:
+            # the guard is a free function handed over as an object (cond=fn, unless=fn)
+            gdefs.append({"name": name, "prov": "free", "kind": "func", "async": False, "multi": False})
+            continue
         for prov in provs:
-            gdefs.append({"name": name, "prov": prov, "kind": draw(st.sampled_from(list(guard_kinds))), "async": False, "multi": len(provs) > 1})
+            gdefs.append({"name": name, "prov": prov, "kind": draw(st.sampled_from([k_ for k_ in guard_kinds if k_ != "func"])), "async": False, "multi": len(provs) > 1})
 
     # scripts
     first_def = {}
@@ -194,7 +198,7 @@ def machine_spec(
 
     # async mask
     # a coroutine guard whose name has several providers is combined without awaiting (finding K1): kept sync
-    everything = cbs + [g for g in gdefs if g["kind"] == "method" and not g.get("multi")]
+    everything = cbs + [g for g in gdefs if g["kind"] in ("method", "func") and not g.get("multi")]
     if async_mode == "all":
         for c in everything:
             c["async"] = True
